@@ -27,10 +27,16 @@ def helpers_of(m):
 
 
 def engine(ctx, rel, qual, **kw):
+    """the function evaluated on symbols (once per function and case split)"""
+    cache = ctx.__dict__.setdefault("_c13_engines", {})
+    key = (rel, qual, tuple(sorted((repr(k), v) for k, v in (kw.get("pins") or {}).items())), tuple(sorted(k for k in kw if k != "pins")))
+    if key in cache and set(kw) <= {"pins"}:
+        return cache[key]
     m = ctx.src.mod(rel)
     fn = ctx.src.func(rel, qual)
     E = M.Engine(m, fn, follow=helpers_of(m), **kw)
     E.run()
+    cache[key] = E
     return E
 
 
@@ -1204,13 +1210,19 @@ def _dmig(ctx):
     v.report(ctx, "rddmig: a form-6 entry (i, j) is mirrored to (j, i) unchanged (plain symmetry)", rd)
     # orientation: the first index of an entry is looked up in what becomes the row index of the DataFrame, the second in its column index
     o = V()
-    frames = [e for e in Er.events("call") if (e.d["name"] or "").split(".")[-1] == "DataFrame" and "index" in e.d["kws"] and "columns" in e.d["kws"] and e.d["args"]]
+    frames = []
+    for e in Er.events("call"):
+        if (e.d["name"] or "").split(".")[-1] == "DataFrame":
+            a_ = dict(zip(("data", "index", "columns"), e.d["args"]))
+            a_.update({k: x for k, x in e.d["kws"].items() if k in ("data", "index", "columns")})
+            if {"data", "index", "columns"} <= set(a_):
+                frames.append((e, a_))
     if not frames:
         o.unknown("DataFrame(mat, index=..., columns=...)")
-    for fr in frames:
-        R, C = fr.d["kws"]["index"], fr.d["kws"]["columns"]
+    for fr, a_ in frames:
+        R, C = a_["index"], a_["columns"]
         for p_ in prim:
-            if p_.d["base"] != fr.d["args"][0] or not set(p_.facts) <= set(fr.facts) and p_.loops[:1] != fr.loops[:1]:
+            if p_.d["base"] != a_["data"] or not set(p_.facts) <= set(fr.facts) and p_.loops[:1] != fr.loops[:1]:
                 continue
             i0, i1 = p_.d["index"][1]
             o.at(p_.node)
